@@ -24,7 +24,8 @@ Python → model
   cached domains (`Variable._domain_.values`) and the process-wide expression table → `Heap`; `gc.collect()` after a
   dropped reference → `Heap.collect` (reachability from the roots).
 
-Defects of the unchanged tree are `Quirks` (DESIGN §2.4); `Quirks.asIs` is the code as it is.
+Defects of the unchanged tree are `Quirks` (DESIGN §2.4); `Quirks.original` is the tree the design was written
+against, `Quirks.asIs` the code as it is (one repair applied).
 The executable specification (`Spec`, `specStep`) is the same history read at the level of objects only:
 no node indices, no ids, no index structures; an instance that dies disappears at once.
 -/
@@ -54,10 +55,11 @@ structure Quirks where
   dupSubclasses : Bool
   deriving DecidableEq, Repr
 
-def Quirks.asIs : Quirks := ⟨true, true, true, true, true, true⟩
+/-- the tree as it was before `fix: SymbolGraph.remove_node purges the relation index …` (c18b52a) -/
+def Quirks.original : Quirks := ⟨true, true, true, true, true, true⟩
+/-- the code as it is: `fixes/C14_purge_relation_index.diff` is applied (commit c18b52a), the other defects are open -/
+def Quirks.asIs : Quirks := ⟨false, false, true, true, true, true⟩
 def Quirks.none : Quirks := ⟨false, false, false, false, false, false⟩
-/-- the tree with `fixes/C14_purge_relation_index.diff` applied -/
-def Quirks.c14Fixed : Quirks := ⟨false, false, true, true, true, true⟩
 
 inductive Kind where
   | scalar | list | set | plain
@@ -144,8 +146,12 @@ structure SG (σ : Type) where
   byClass : List W
   relIdx : List (Fld × Nat × Nat)
   al : σ
+  /-- ghost: every node index handed out since this graph was created -/
+  ever : List Nat
+  /-- ghost: a node index was handed out a second time (sticky, also across `clear`) -/
+  reused : Bool
 
-def SG.empty {σ} (a : Alloc σ) : SG σ := ⟨[], [], [], [], [], a.init⟩
+def SG.empty {σ} (a : Alloc σ) : SG σ := ⟨[], [], [], [], [], a.init, [], false⟩
 
 /-- `add_node` -/
 def addNode {σ} (a : Alloc σ) (g : SG σ) (o : Obj) (c : Cls) (pid : Nat) : SG σ × W :=
@@ -154,7 +160,9 @@ def addNode {σ} (a : Alloc σ) (g : SG σ) (o : Obj) (c : Cls) (pid : Nat) : SG
   ({ g with nodes := g.nodes ++ [w],
             instIdx := g.instIdx.filter (fun kw => kw.1 != pid) ++ [(pid, w)],
             byClass := g.byClass ++ [w],
-            al := p.2 }, w)
+            al := p.2,
+            ever := g.ever ++ [p.1],
+            reused := g.reused || g.ever.contains p.1 }, w)
 
 /-- `remove_node` of a wrapper whose instance is dead -/
 def removeNode {σ} (q : Quirks) (a : Alloc σ) (g : SG σ) (w : W) : SG σ :=
@@ -428,7 +436,7 @@ def step {σ} (q : Quirks) (S : Schema) (a : Alloc σ) (st : St σ) (op : Op) : 
   | .drop o =>
     { st with h := ({ st.h with held := st.h.held.filter (fun x => x != o) }).collect q }
   | .sweep => { st with g := sweep q a st.g st.h.isLive }
-  | .clear => { st with g := SG.empty a, h := { st.h with epoch := [] } }
+  | .clear => { st with g := { SG.empty a with reused := st.g.reused }, h := { st.h with epoch := [] } }
   | .rel f s t =>
     match st.h.find s, st.h.find t with
     | some xs, some xt =>
